@@ -21,11 +21,17 @@ TS = "engine::search::time_control::TimeStrategy"
 
 def run(fx, rep, tier):
     new = fx.one("TimeStrategy::new")
-    info = analyse_new(fx, rep, new)
-    rule_cap(fx, rep, new, info)
-    rule_exact(fx, rep, new, info)
+    try:
+        info = analyse_new(fx, rep, new)
+    except LimitsNotLocated as e:
+        info = None
+        rep.notes.append(f"C14-CAP / C14-EXACT / C14-WIRE: {e}; not decided")
+    if info is not None:
+        rule_cap(fx, rep, new, info)
+        rule_exact(fx, rep, new, info)
     rule_use(fx, rep)
-    rule_wire(fx, rep, new, info)
+    if info is not None:
+        rule_wire(fx, rep, new, info)
     rule_select(fx, rep)
     rule_poll(fx, rep)
 
@@ -214,6 +220,42 @@ def arm_of(fx, body, bb, argidx, adt):
     return None
 
 
+class LimitsNotLocated(Exception):
+    pass
+
+
+def locate_limit_operands(new, rv):
+    leaves = []
+
+    def descend(op, names, depth):
+        if depth > 4 or "pl" not in op or op["pl"].get("p"):
+            return
+        l = op["pl"]["l"]
+        ty = new.local_ty(l) or ""
+        if ty.endswith("time::Duration"):
+            leaves.append((names, op))
+            return
+        for d in new.defs().get(l, []):
+            if d[0] != "stmt" or d[3]["k"] != "assign":
+                continue
+            r = d[3]["rv"]
+            if r["k"] == "agg" and r.get("agg") == "adt":
+                for fname, o in zip(r.get("fields") or [str(i) for i in range(len(r["ops"]))], r["ops"]):
+                    descend(o, names + [str(fname)], depth + 1)
+            elif r["k"] == "use":
+                descend(r["op"], names, depth + 1)
+    for fname, o in zip(rv["fields"], rv["ops"]):
+        descend(o, [str(fname)], 0)
+    out = {}
+    for want, tag in (("soft_stop", "soft"), ("hard_stop", "hard")):
+        c = [o for names, o in leaves if any(tag in n for n in names)]
+        uniq = {o["pl"]["l"] for o in c}
+        if len(uniq) != 1:
+            return None
+        out[want] = c[0]
+    return out
+
+
 def analyse_new(fx, rep, new):
     """Locate the TimeStrategy literal and the definitions of its two limit operands per time-control arm."""
     aggs = [(bb, j, s) for bb, j, s in new.stmts() if s["k"] == "assign" and s["rv"]["k"] == "agg" and s["rv"].get("agg") == "adt" and norm(s["rv"]["adt"]) == TS]
@@ -222,6 +264,14 @@ def analyse_new(fx, rep, new):
     rv = aggs[0][2]["rv"]
     ops = dict(zip(rv["fields"], rv["ops"]))
     info = {"agg_bb": aggs[0][0], "limits": {}}
+    if "soft_stop" not in ops or "hard_stop" not in ops:
+        # the two limits may be packed into a private record (`deadlines: Option<Deadlines { soft, hard }>`): descend through
+        # the aggregates built in this function down to the Duration-typed leaves and pick them by the name on the way
+        found = locate_limit_operands(new, rv)
+        if found is None:
+            raise LimitsNotLocated("the soft / hard limit operands of the TimeStrategy literal could not be located")
+        ops = dict(ops)
+        ops.update(found)
     for fld in ("soft_stop", "hard_stop"):
         op = ops[fld]
         # follow plain copies back to the variable that is assigned per arm
@@ -673,6 +723,24 @@ def rule_wire(fx, rep, new, info):
                 e0 = cg.expr(t["args"][0], expand_named=True)
                 cs = [x[1] for x in walk(e0) if isinstance(x, tuple) and x and x[0] == "const" and isinstance(x[1], str)]
                 tok = cs[0] if cs else None
+            # enum form: the argument is turned into a variant of a private enum (by the variant's constructor used as a function
+            # value, or by a closure returning the variant), and one `match` on that enum writes the field of each variant
+            ctor = None
+            for a in t["args"]:
+                if a.get("k") == "const" and a.get("fn") and fx.body(a.get("fn")) is None:
+                    ctor = norm(a["fn"])
+            if ctor is None and clos:
+                for k2, b2 in fx.bodies.items():
+                    if k2.startswith(clos + "::") or k2 == clos:
+                        for cbb, cj, cs in b2.stmts():
+                            rv2 = cs.get("rv")
+                            if rv2 and rv2["k"] == "agg" and rv2.get("agg") == "adt" and cs["lhs"]["l"] == 0 and norm(rv2["adt"]).startswith("engine::uci::parser::"):
+                                ctor = norm(rv2["adt"]) + "::" + rv2["variant"]
+            if ctor and tok:
+                fld = enum_variant_field(fx, ctor)
+                if fld:
+                    token_to_field[tok] = fld
+                    continue
             if clos:
                 flds = set()
                 for k2, b2 in fx.bodies.items():
@@ -684,6 +752,10 @@ def rule_wire(fx, rep, new, info):
                     token_to_field[tok] = flds.pop()
     rep.sample({"rule": "C14-WIRE", "token_to_go_field": token_to_field, "go_field_to": {k: list(v) for k, v in go_field_to.items()},
                 "clocks_field_role": {k: list(v) for k, v in role_of_field.items()}})
+    if not token_to_field:
+        rep.notes.append("C14-WIRE: the `go` parser does not map its tokens to GoCmdArguments fields in a recognisable form (closures writing one field, or variants of an enum applied by one match); token wiring not decided")
+        rep.rule("C14-WIRE", n, 0, ok, "token wiring not decided (parser shape)")
+        return
     expected = {"wtime": ("White", "clock"), "btime": ("Black", "clock"), "winc": ("White", "increment"), "binc": ("Black", "increment")}
     for tok, want in expected.items():
         n += 1
@@ -719,6 +791,41 @@ def rule_wire(fx, rep, new, info):
     if not good:
         bad("game", "the go handler does not hand the current position (self.game) to TimeStrategy::new", ex)
     rep.rule("C14-WIRE", n, 8, ok, "token -> field -> clock-of-colour wiring")
+
+
+def enum_variant_field(fx, ctor):
+    """GoCmdArguments field written in the arm of variant `ctor` (path Enum::Variant) by the function that matches on that enum"""
+    en, var = ctor.rsplit("::", 1)
+    try:
+        adt = fx.adt(en)
+    except Exception:
+        return None
+    disc = {v["name"]: v["discr"] for v in adt["variants"]}.get(var)
+    if disc is None:
+        return None
+    for b in fx.fn_bodies():
+        if not norm(b.name).startswith("engine::uci::parser::"):
+            continue
+        for i in sorted(b.live_blocks()):
+            t = b.blocks[i]["term"]
+            if t["k"] != "switch" or t.get("dty") == "bool":
+                continue
+            e = deep_strip(b.expr(t["discr"], expand_named=True))
+            if not (isinstance(e, tuple) and e[0] == "discr" and isinstance(deep_strip(e[1]), tuple) and deep_strip(e[1])[0] == "arg" and
+                    en.split("::")[-1] in (b.local_ty(deep_strip(e[1])[1]) or "")):
+                continue
+            tg = [x for v, x in t["targets"] if v == disc]
+            if not tg:
+                continue
+            others = [x for v, x in t["targets"] if v != disc]
+            mine = b.reachable(tg[0], removed_blocks=[i])
+            rest = set()
+            for o in others:
+                rest |= b.reachable(o, removed_blocks=[i])
+            flds = {fld for (wb, wi, adt2, fld, kind, place) in b.field_writes() if adt2.endswith("GoCmdArguments") and wb in mine and wb not in rest}
+            if len(flds) == 1:
+                return flds.pop()
+    return None
 
 
 T = "src/engine/search/time_control.rs"
